@@ -239,8 +239,11 @@ Qed.
 Lemma k16_so_set o kvs : keeps H16 (so_set o kvs).
 Proof.
   intros s Hs. unfold so_set. unfold bind at 1, gets. cbn [fst snd].
-  set (i := get_inst s o). pose proof (NoDup_as_dict kvs) as Hnd. set (kw := as_dict kvs) in *.
+  set (i := get_inst s o). pose proof (NoDup_set_kw kvs) as Hnd.
+  set (kw := filter (fun cv : nat * val => is_col (fst cv)) (as_dict kvs)) in *.
+  unfold bind at 1. destruct (is_lazy (i_k i) && existsb _ kvs); [exact Hs|]. unfold ret at 1.
   unfold bind at 1. destruct (validate_all_run kw s) as [Ev|Ev]; rewrite Ev; [|exact Hs].
+  unfold bind at 1. destruct (existsb _ kvs); [exact Hs|]. unfold ret at 1.
   destruct (is_lazy (i_k i)) eqn:Hl.
   - unfold upd_inst, modify. apply H16_upd; [exact Hs|intros Hi]. apply P16_set_lazy; auto.
     + intros Hne. destruct kw; [congruence|reflexivity].
@@ -537,6 +540,15 @@ Proof. vm_compute. reflexivity. Qed.
 
 Example C16_hist16_shown : pending_shown (get_inst (run cfg16 hist16) 0).
 Proof. apply (C16_pending_shown_proof cfg16 hist16 0%nat eq_refl); vm_compute; auto. Qed.
+
+(* a lazy set with a keyword the class does not know raises before anything is cached or queued (fix 6e79cab) *)
+Example C16_lazy_set_unknown_keyword :
+  let s := run cfg16 [OCreate Lazy [(1%nat, VInt 1)]] in
+  let rs := step cfg16 s (OSet 0 [(0%nat, VInt 5); (3%nat, VInt 1)]) in
+  fst rs = Raise ETypeError /\ heap (snd rs) = heap s /\ tables (snd rs) = tables s /\
+  i_dirty (get_inst (snd rs) 0) = false /\ i_pending (get_inst (snd rs) 0) = [] /\
+  is_lazy (i_k (get_inst s 0)) = true /\ held s 0%nat.
+Proof. vm_compute. repeat split; auto. Qed.
 
 Print Assumptions C16_pending_shown_proof.
 Print Assumptions C16_read_returns_pending_proof.
